@@ -14,7 +14,7 @@ RULE = ("harness-written trace string files (0..30 strings, duplicate and partia
         "every buffer is additionally truncated at every offset (thorough) or every 5th (quick).  Wrappers over every alias of "
         "parse_trace_data and over TraceStringFile.get_trace_string compare each call with trace_ref / find_string.  "
         "Non-trivial: input >= 32 bytes; distinct = (string file, data).")
-ASSUMPTIONS = ["when the declared size falls inside an entry, showing or not showing that entry are both accepted",
+ASSUMPTIONS = ["an entry belongs to the buffer when it starts below the declared size (it may extend beyond it)",
                "Python's % operator is the formatting semantics", "dumps use the documented default hex-dump layout"]
 FILES = {}
 
@@ -32,7 +32,9 @@ def install(ctx):
             return res
         ctx.counters["trace.calls_checked"] += 1
         want, alt = im.trace_ref(bytes(data), strings)
-        if list(res) != want and (alt is None or list(res) != alt):
+        # an entry that STARTS below the declared size is shown even when it extends beyond it (the reading the statement's
+        # "every entry up to the declared buffer size" has in this code base); `alt` is only counted, not accepted
+        if list(res) != want:
             k = 0
             while k < min(len(res), len(want)) and res[k] == want[k]:
                 k += 1
@@ -116,12 +118,11 @@ def run(spec, ctx):
     if spec["mode"] == "synthetic":
         for i in range(spec["n"]):
             strings = iogen.gen_strings(rng)
-            path = os.path.join(root, "str_%d" % i)
+            path = os.path.join(root, "str_%d" % (i % 3))      # paths are reused: the file is rewritten with other strings
             im.write_string_file(path, strings, rng)
             FILES[os.path.abspath(path)] = iogen.model_strings(strings)
             for _ in range(3):
                 drive(ctx, trace, rng, path, iogen.model_strings(strings), "syn%d-%d" % (spec["rseed"], i), spec["step"])
-            os.unlink(path)
         return
     from io_drawer.drawer_type import MEX_DRAWER_TYPE, NIMITZ_DRAWER_TYPE
     dt = MEX_DRAWER_TYPE if spec["which"] == "mex" else NIMITZ_DRAWER_TYPE
